@@ -501,7 +501,10 @@ static const char *explain(const struct cfg *c, const struct txline *t, const ch
 			c2.sp.bytes_per_line = c2.spl * c2.bpp;
 			if (try_decode(&c2, c->req, t)) { q = "model:C04:Q-needs-trailing-margin"; vf_count("quirk_needs_trailing_margin", 1); }
 		}
-		if (!q && c->rate < 1.06 * floor_rate) {
+		/* The named deviation: the slicers need about 12 % more than two samples per symbol (more with 5 bit
+		   pixel formats); the statement's floors are two samples per symbol (13.5 MHz = 1.95 for Teletext B).
+		   Granted only below 2.24 samples per symbol and only when a 12 % higher rate cures the line. */
+		if (!q && (c->rate < 1.06 * floor_rate || c->rate < 2.24 * t->s->clock)) {
 			struct cfg c2 = *c;
 			double r2 = floor(c->rate * 1.12), t0 = c->sp.offset / c->rate, t1 = (c->sp.offset + c->spl) / c->rate;
 			c2.rate = r2;
